@@ -22,7 +22,7 @@ REPLAYS = VERIF / 'replays'
 FINDINGS_FILE = VERIF / 'known_findings.json'
 
 LEVELS = ('exploration', 'fault_enumeration', 'model_checking')
-MAX_REPLAYS = 25  # replay files written per run (every violation is still counted)
+MAX_REPLAYS = 40  # replay files written per run (every violation is still counted)
 
 
 def parse_args(prop: str, argv=None):
@@ -191,7 +191,7 @@ class Sieve:
                 continue
         ck = str(record.get('class') or record.get('kind'))
         self.classes[ck] = self.classes.get(ck, 0) + 1
-        if len(self.records) < self.cap:
+        if len(self.records) < self.cap and self.classes[ck] <= 4:
             self.records.append(record)
         else:
             self.extra += 1
@@ -240,7 +240,10 @@ class Run:
             self.known_hits[f['id']] = self.known_hits.get(f['id'], 0) + 1
             return False
         self.violations += 1
-        if self.replays_written < MAX_REPLAYS:
+        ck = str(record.get('class') or record.get('kind'))
+        self._per_class = getattr(self, '_per_class', {})
+        self._per_class[ck] = self._per_class.get(ck, 0) + 1
+        if self.replays_written < MAX_REPLAYS and self._per_class[ck] <= 3:
             self.replays_written += 1
             n = self.replays_written
             path = REPLAYS / f'{self.prop}-{os.getpid()}-{n}.json'
